@@ -1,7 +1,7 @@
 CONSTANTS
   MaxReqs = 4
   Stores = {"cookie", "redis"}
-  DomainCfgs = {"none", "dotted", "two", "backend_ok", "backend_fail"}
+  DomainCfgs = {"none", "dotted", "two", "backend_ok", "backend_fail", "backend_reset"}
   DeleteKey = TRUE
 INIT Init
 NEXT Next
